@@ -246,6 +246,16 @@ def judge_c07(obs: L.Obs) -> list[tuple[str, str]]:
                     certain = True
                 else:
                     maybe = True
+        # (boundary oracle, independent of the library's own packet dispatch) the socket had handed over a complete, well-formed DisconnectRequest on
+        # an established session and the loop iteration ended with the connection still up: the device's request was initiated before the close
+        for h in obs.peer_disc_handed_over:
+            if h["conn"] == v.idx:
+                _stat(f"c07/socket-boundary/well-formed-DisconnectRequest-read/state-at-end-of-iteration={h['state']}")
+            if h["conn"] == v.idx and h["state"] == "CONNECTED" and h["seq"] < cutoff:
+                _stat("c07/peer-disconnect-read-from-socket-while-connected")
+                if not certain:
+                    certain = True
+                    _stat("c07/peer-disconnect-known-only-at-the-socket-boundary")
         _stat(f"c07/arg={arg}/certain-graceful={certain}/maybe={maybe}")
         if certain and arg is not True:
             out.append(("C07/expected-false-after-graceful", f"graceful disconnect initiated before close but on_stop({arg}) (cause {cause_tag(obs)})"))
@@ -645,7 +655,7 @@ def high_water_sweep(ctx: Ctx, prop: str) -> None:
     idx = 0
     for framing in ("plain", "noise"):
         for margin in (1, 40, 3000):
-            for then in ("device_info", "list_entities", "disconnect", "ping", "spawn2", "cmd"):
+            for then in ("device_info", "list_entities", "disconnect", "ping", "spawn2", "cmd", "force", "peer_disconnect", "eof"):
                 for release in (None, 2.0):
                     idx += 1
                     if not ctx.mine(idx):
@@ -661,6 +671,12 @@ def high_water_sweep(ctx: Ctx, prop: str) -> None:
                     elif then == "cmd":
                         faults.append({"kind": "cmd", "point": {"t": t0 + 1.0}, "posclass": "high-water"})
                         prog += [["sleep", 2.0], ["request", "device_info"]]
+                    elif then == "force":
+                        # an expected close while the transport still holds unsent bytes
+                        prog += [["force"], ["sleep", 2.0]]
+                    elif then in ("peer_disconnect", "eof"):
+                        faults.append({"kind": then, "point": {"t": t0 + 1.0}, "posclass": "high-water"})
+                        prog += [["sleep", 2.0]]
                     if release is not None:
                         prog.insert(-1, ["stall_release", 4000]) if then == "spawn2" else prog.append(["stall_release", 4000])
                         prog += [["sleep", release]]
@@ -684,7 +700,8 @@ def same_turn_pairs_sweep(ctx: Ctx, prop: str) -> None:
     ]
     idx = 0
     for label, bspec in bases:
-        for net in ("eof", "rst", "etimedout", "garbage01", "garbage", "bad_pb", "peer_disconnect", "sendfail+ping"):
+        for net in ("eof", "rst", "etimedout", "garbage01", "garbage", "bad_pb", "peer_disconnect", "sendfail+ping", "sendfail+ping,peer_disconnect",
+                    "sendfail+time_req,state,peer_disconnect,rst"):
             for user in ("force", "disconnect", "cancel", "cmd"):
                 for after_io in (False, True):
                     idx += 1
@@ -695,6 +712,11 @@ def same_turn_pairs_sweep(ctx: Ctx, prop: str) -> None:
                     if net == "sendfail+ping":
                         faults.append({"kind": "sendfail", "point": {"t": t - 0.001}, "posclass": "same-turn"})
                         faults.append({"kind": "chunk:ping_req", "point": {"t": t}, "posclass": "same-turn"})
+                    elif net.startswith("sendfail+"):
+                        # the device's last words in ONE chunk - a request the library answers from inside the read loop, then its DisconnectRequest -
+                        # on a socket that no longer takes data (the answer's send fails and the transport starts closing, silently, mid-chunk)
+                        faults.append({"kind": "sendfail", "point": {"t": t - 0.001}, "posclass": "same-turn"})
+                        faults.append({"kind": "chunk:" + net[9:].replace("ping,", "ping_req,"), "point": {"t": t}, "posclass": "same-turn"})
                     else:
                         faults.append({"kind": net, "point": {"t": t}, "posclass": "same-turn"})
                     faults.append({"kind": user, "point": {"t": t, "after_io": after_io}, "posclass": "same-turn-after-io" if after_io else "same-turn-before-io"})
